@@ -72,6 +72,25 @@ def corrupt_sessions(rnd, n):
     return out
 
 
+def error_trunc_sessions(rnd):
+    """Error replies (general status # 0, 0-2 additional status words) cut at every offset around their status words."""
+    scs = []
+    n = 0
+    for mode in ("connected", "ucmm", "ucsend"):
+        base = 48 if mode == "connected" else 42                    # offset of the general status byte
+        for st, ext in ((4, []), (5, [0x2105]), (0xFF, [0x2105, 1]), (8, []), (1, [0x0100])):
+            for off in (base, base + 1, base + 2, base + 3, base + 4, base + 5):
+                route = [S.port_seg("bp", 1)]
+                c, sc_ = S.generic_call(rnd, route, mode=mode, script={"status": st, "ext": ext, "data": []})
+                pre, spre = S.generic_call(rnd, route, mode="connected", script={"status": 0, "ext": [], "data": [1]})
+                # replies: register(1), forward open(2), first generic(3), second generic(4)
+                scs.append({"id": "et%d" % n, "family": "corrupt-error-trunc", "target": {"policy": "LargeOK", "script": [spre, sc_], "identity": S.identity(),
+                                                                                          "corrupt": {"4": ["trunc", off]}},
+                            "driver": {"kind": "cip", "path": "10.0.0.7/bp/1", "route": route}, "calls": [{"api": "open"}, pre, c, {"api": "close"}]})
+                n += 1
+    return scs
+
+
 def reply_ordinals(tr):
     """Per call of a trace: api and the ordinals / lengths of the replies the target produced during it."""
     ordinal, calls, cur = 0, [], None
@@ -154,6 +173,7 @@ def run(ctx):
     except ImportError:
         pass
     scs += tag_corrupt_sessions(rnd, 1200 if thorough else 200)
+    scs += error_trunc_sessions(rnd)
     results = se.run_all(ctx, scs, "c13")
     ctx.traces = len(results)
     se.report(ctx, results, lambda r, clause, ev: {"family": r["sc"]["family"], "api": ev.get("api", ev.get("k", ""))})
